@@ -104,6 +104,14 @@ macro_rules! i1_indexes {
 			assert!(ix.first() == (positions(&ix).unwrap().trailing_zeros() as usize), "C06:representative-is-the-first-position");
 			assert!(ix.len() == positions(&ix).unwrap().count_ones() as usize, "C06:indexes-len");
 			assert!(ix.is_redundant() == (ix.len() > 1), "C06:indexes-is-redundant");
+			// `redundant()` is the FIRST position after the representative (what insert / insert_front
+			// remove next, and what redundant_index_of reports), `redundants()` all of them
+			{
+				let after = positions(&ix).unwrap() & !(1u16 << ix.first());
+				let want = if after == 0 { None } else { Some(after.trailing_zeros() as usize) };
+				assert!(ix.redundant() == want, "C06:redundant-is-the-second-position");
+				assert!(ix.redundants().len() + 1 == ix.len(), "C06:redundants-are-all-but-the-representative");
+			}
 			kani::cover!(op == 0 && i < rep0);
 			kani::cover!($extra == 0 || (op == 1 && s != 1 << i && s & (1 << i) != 0));
 			kani::cover!(op == 2);
